@@ -237,6 +237,13 @@ class SCompact:
         self.dtype = dtype
 
 
+class SWhere:
+    """np.where(mask)[0]: the ascending index set of a 1-d boolean array (never materialised)."""
+
+    def __init__(self, mask):
+        self.mask = mask
+
+
 class SSeq:
     """Sequence of symbolic length with element function (python-level iteration source)."""
 
